@@ -25,6 +25,7 @@ type dir struct {
 	cond *sync.Cond
 
 	// writer side
+	gate   func()   // when set, called at the start of every Write before anything is recorded (interleave.go)
 	hold   bool     // true: written units are only recorded, the checker feeds the inbox itself
 	record bool     // keep a copy of every written unit in units
 	units  [][]byte // every Write call, in order (one unit per call)
@@ -50,6 +51,12 @@ func newDir() *dir {
 }
 
 func (d *dir) write(p []byte) (int, error) {
+	d.mu.Lock()
+	g := d.gate
+	d.mu.Unlock()
+	if g != nil {
+		g() // controlled interleavings: the calling goroutine is parked here with its frame in hand
+	}
 	d.mu.Lock()
 	defer d.mu.Unlock()
 	if d.closed {
